@@ -246,6 +246,30 @@ def run(ctx):
     r3.floor(109, "109 character arms")
 
     # ---------------- R4 punctuation set
+    # ---------------- R5 the single-string constructor keeps the text it is given
+    r5 = chk.rule("C03.R5", "the single-string suggestion stores the transliteration unchanged (encoding happens only at read-out)",
+                  "the single string returned is the transliteration itself")
+    _sites5, _names5 = builders.suggestion_ctor_sites(prog)
+    lon = [k for k, v in _names5.items() if v == "lonely"]
+    if len(lon) != 1:
+        r5.undecidable("ctor", "single-string constructor matched %s" % lon)
+    else:
+        cb5 = prog.body(lon[0])
+        ret5 = strip_refs(cb5.expr_local(0))
+        ok5 = False
+        if ret5.k == "agg" and str(ret5.a[0]).startswith("adt:"):
+            for op5 in ret5.a[1]:
+                o5 = strip_refs(op5)
+                if o5.k == "arg" and cb5.locals[o5.a[0]]["ty"] == "std::string::String":
+                    ok5 = True
+        calls5 = [callee_name(t) for (bb, t) in cb5.calls() if not callee_name(t).startswith("core::panicking")]
+        if ok5 and not calls5:
+            r5.ok("ctor", "Single { text: the String parameter, .. } — no conversion at construction")
+        else:
+            r5.violation("ctor", "the single-string constructor %s — what get_lonely_suggestion() returns is no longer the transliteration"
+                         % ("applies %s to its text" % calls5[0].split("::")[-1] if calls5 else "does not store its String parameter as it is"), common.fn_line(prog, lon[0]))
+    r5.floor(1, "ctor")
+
     r4 = chk.rule("C03.R4", "the splitter's punctuation set contains the stated characters and no letter or digit, and one set feeds both scans",
                   "leading/trailing strings over the stated punctuation set are split off the word")
     sb = prog.body(sp)
@@ -295,6 +319,9 @@ def _converted_part(prog, b, v, acc, is_phonetic_parser):
         if len(hits) == 1:
             bb, t = hits[0]
             if not is_phonetic_parser(b.expr_operand(t["args"][0])):
+                return None
+            # the scratch buffer keeps its contents between calls: it must be refilled on every path before it is read
+            if not all(b.dominates(bb, rb_) for rb_ in b.return_blocks):
                 return None
             part = peel_conv(b.expr_operand(t["args"][1]))
             if part.k == "call" and part.a[0] in acc:
